@@ -23,15 +23,23 @@ def setup():
 
 def run_job(kind, key):
     w, I, table = setup()
-    c = pp.Binarize()
-    I.contracts[c.name] = c
+    if key == '_binarize':
+        c = pp.Binarize()
+        I.contracts[c.name] = c
+    else:
+        for x in (pp.TypeCheck(), pp.BinarizeAt()):
+            I.contracts[x.name] = x
+        c = pp.ApplyCategoryFilters()
+        I.contracts[c.name] = c
     recs, npaths = verify_contract(I, c, PROP)
+    for r in recs:
+        r['witness'] = dict(function=c.name)
     return dict(job=key, records=recs, paths=npaths, lib=sorted(I.used_lib))
 
 
 def main(tier='quick', seed=0):
     t0 = time.time()
-    results = engine.run_jobs('props.c17', [('contract', '_binarize')])
+    results = engine.run_jobs('props.c17', [('contract', '_binarize'), ('contract', 'apply_category_filters')])
     records, errors = [], []
     for r in results:
         records.extend(r.get('records', []))
@@ -39,8 +47,14 @@ def main(tier='quick', seed=0):
             errors.append(f"{r['error']} (job {r['job']})")
     assumptions = [
         'numpy contracts: ones/zeros(n, dtype=bool) are constant vectors of length n; a[index_list] = c writes c at exactly the listed indices; a[i, mask] = v writes v at the masked columns of row i',
-        'deductive part: _binarize only (mask = complement of the listed indices). The postcondition of apply_category_filters over whole documents (dict/loop/fancy-indexing composition) is decided by the '
-        'BOUNDED run-time contract on the real function, every cell compared; the data clause is exhaustive over the shipped files',
+        'deductive part: _binarize (mask = complement of the listed indices) and apply_category_filters for a list of sentences: the real body is executed over symbolic collections - the two dict comprehensions and the '
+        'list comprehension are evaluated once for an ARBITRARY element (assumptions local to that evaluation), the two loops once for an ARBITRARY sentence and token (iteration (s, i) writes row i of sentence s only: '
+        'frame obligation) - and every cell (s, i, j) is proved to be the large negative value iff the word is a key and the category of column j is not listed, the old score otherwise; the arguments are returned as given '
+        '(token order, dependency scores untouched: never stored to)',
+        'preconditions: `categories` lists pairwise different categories (with duplicates the earlier column of a listed category would be overwritten); every dictionary category belongs to the inventory (data clause: exhaustive over '
+        'the shipped files in the bounded part); categories behave as values (C13): identities stand for them',
+        'assumed contracts: {cat: index for index, cat in enumerate(categories)} maps the category at position j to a position >= j holding the same category; zip / enumerate iterate in order; _type_check returns its list arguments '
+        '(its shape clauses are bounded, C11); the single-sentence calling convention (doc a list of tokens) is covered by the bounded run only',
     ]
-    extra = dict(functions_under_contract=['depccg/parsing.py::_binarize'], bounded_functions=['depccg/parsing.py::apply_category_filters', 'depccg/parsing.py::_type_check'])
+    extra = dict(functions_under_contract=['depccg/parsing.py::_binarize', 'depccg/parsing.py::apply_category_filters (list-of-sentences form)'], bounded_functions=['depccg/parsing.py::apply_category_filters (single-sentence form, real numpy)', 'depccg/parsing.py::_type_check', 'shipped cat_dict / targets / seen_rules / unary_rules files'])
     return c12.finish_with(PROP, tier, seed, t0, records, errors, extra, assumptions, ['c17_real.py'], level='exploration')
